@@ -180,7 +180,7 @@ class Path:
                 if worst is not None:
                     first.status, first.model, first.reason, first.backend = worst.status, worst.model, worst.reason, worst.backend
                 first.time = sum(o.time for o in obs)
-                if first.status != "unsat" and assume_after:
+                if assume_after and (first.status != "unsat" or getattr(self.ctx, "assume_proved", False)):
                     self.assume(fs)
                 return first
         ob = Obligation(name, kind)
@@ -254,6 +254,10 @@ class Path:
         self.obligations.append(ob)
         if ob.status != "unsat" and assume_after:
             # continue as if it held, so that later obligations are independent
+            self.assume(f)
+        elif ob.status == "unsat" and assume_after and getattr(self.ctx, "assume_proved", False) and not z3.is_true(f):
+            # a discharged obligation is entailed by the path condition: asserting it changes no verdict in principle,
+            # but spares the solver re-deriving it in later queries of the path (contracts opt in: `assume_proved`)
             self.assume(f)
         return ob
 
